@@ -1,5 +1,6 @@
 """C08 — views are isolated, share ids and types, and every handle sees the same state."""
 import json
+import random
 
 from harness.gallina import gbool, glist, gn, gnat, gopt, gstr, gz
 
@@ -13,14 +14,17 @@ ENTRY = ("cassis.cas.Cas.__init__/_copy/create_view/get_view/add/remove/select_a
 RULE = (
     "seeded random histories (quick: <= 14 operations) on a lenient or strict Cas (optionally constructed with "
     "sofa_string / sofa_mime / document_language) over <= 4 views and <= 6 handles: create_view / get_view through "
-    "any live handle (incl. existing / missing names), add (keep_id on/off, preset and colliding xmi ids, the same "
+    "any live handle (incl. existing / missing names; about 40 % of the create_view calls pass an explicit xmiID and/or "
+    "sofaNum: at, shortly above or below the shared generator's next value, so that later adds through any handle run "
+    "the generator up to it), add (keep_id on/off, preset and colliding xmi ids, the same "
     "structure into several views or twice into one) and remove (incl. absent) of annotations, DocumentAnnotation "
     "and subtype instances, AnnotationBase and TOP structures and structures typed by ANOTHER TypeSystem (unknown "
     "name, dotless name 'Tok' whose short name matches t.Tok, same full name, its DocumentAnnotation), the four sofa "
     "setters/getters (text incl. empty, None, non-BMP), document_language get/set, get_covered_text with out-of-range, "
     "negative and None offsets, select_all. After EVERY step the state is observed through EVERY live handle (view "
     "name, sofa id/num/text/mime/uri/array, select_all, views, sofas, typesystem identity) and every structure's "
-    "xmiID / sofa / language is read; leniency of each new handle is probed with a foreign structure. A case is "
+    "xmiID / sofa / language is read; leniency of each new handle is probed with a foreign structure; every id the "
+    "CAS generates is compared with the ids of all sofas and of all indexed structures. A case is "
     "non-trivial with >= 2 views, >= 3 handles and a mutation through a non-initial handle."
 )
 TRUSTED = [
@@ -34,12 +38,16 @@ TRUSTED = [
     "type-system facts are inputs: the names the CAS type system contains and the names of "
     "DocumentAnnotation.descendants (C10)",
     "Python's slice semantics text[b:e] is used by the oracle as the reference for pyslice",
+    "ghost log st_genlog of the model (ids generated, or explicit sofa ids accepted while free) is not observable",
 ]
 ASSUMPTIONS = [
     "structures are not pointed at a sofa before their first add; scenario labels are below 1000 (labels from 1000 "
     "are the DocumentAnnotations the CAS creates itself)",
     "the CAS type system contains uima.tcas.DocumentAnnotation (always true: built-in)",
     "begin/end of a structure are not modified after it was indexed (remove looks the key up again)",
+    "explicit xmiID / sofaNum arguments of create_view are Python ints; one below the generator's next value is taken "
+    "as it is and may repeat a number in use (theorem C08_stale_explicit_id_repeats): sofa ids / numbers are only "
+    "required to be pairwise distinct in histories whose explicit numbers were all free when passed",
 ]
 
 DOCANN = "uima.tcas.DocumentAnnotation"
@@ -90,6 +98,7 @@ class Book:
         self.lenient = sc["lenient"]
         self.views, self.order = {}, []
         self.next_id, self.next_sofa, self.next_auto = 1, 1, 1000
+        self.fresh = True        # every explicit xmiID / sofaNum given to create_view was free when passed
         self.known_ids = set()   # ids the CAS has handed out or been told about
         self.objs = {}
         for i, o in enumerate(sc["objs"]):
@@ -105,13 +114,23 @@ class Book:
         if c.get("lang") is not None:
             self.apply({"k": "set_lang", "h": 0, "v": c["lang"]})
 
-    def _new_view(self, name):
-        self.views[name] = {"xid": self.next_id, "num": self.next_sofa, "text": None, "mime": None, "uri": None,
-                            "arr": None, "index": []}
+    def _new_view(self, name, xid=None, num=None):
+        # one id space / one sofa-number space: a number the caller chose is from then on used up like a generated one
+        if xid is None:
+            xid, self.next_id = self.next_id, self.next_id + 1
+        elif xid >= self.next_id:
+            self.next_id = xid + 1
+        else:
+            self.fresh = False
+        if num is None:
+            num, self.next_sofa = self.next_sofa, self.next_sofa + 1
+        elif num >= self.next_sofa:
+            self.next_sofa = num + 1
+        else:
+            self.fresh = False
+        self.views[name] = {"xid": xid, "num": num, "text": None, "mime": None, "uri": None, "arr": None, "index": []}
         self.order.append(name)
-        self.known_ids.add(self.next_id)
-        self.next_id += 1
-        self.next_sofa += 1
+        self.known_ids.add(xid)
 
     def family_in(self, view):
         return [o for o in self.views[view]["index"] if self.objs[o]["type"] in FAMILY]
@@ -161,7 +180,7 @@ class Book:
         if k == "create_view":
             if op["name"] in self.views:
                 return ["err", "EValue"]
-            self._new_view(op["name"])
+            self._new_view(op["name"], op.get("xid"), op.get("num"))
             self.handles.append([op["name"], self.handles[h][1]])
             return ["handle", len(self.handles) - 1]
         if k == "get_view":
@@ -199,7 +218,7 @@ class Book:
                 "views": [[n, {"xid": self.views[n]["xid"], "num": self.views[n]["num"], "text": self.views[n]["text"],
                                "mime": self.views[n]["mime"], "uri": self.views[n]["uri"], "arr": self.views[n]["arr"],
                                "sel": sorted(self.views[n]["index"])}] for n in self.order],
-                "names": [list(self.order), list(self.order)],
+                "names": [list(self.order), list(self.order)], "fresh": self.fresh,
                 "objs": [[o, {"xid": self.objs[o]["xid"], "sofa": self.objs[o]["sofa"], "lang": self.objs[o]["lang"]}]
                          for o in sorted(self.objs)]}
 
@@ -313,10 +332,38 @@ def _scenario(rng, max_ops):
     return sc
 
 
+def _explicit_ids(sub, sc):
+    """create_view(name, xmiID=k, sofaNum=m): decorate the create_view calls of a finished scenario (ids do not influence
+    which views, handles and index contents exist, so the scenario stays well formed) and, sometimes, let a few more
+    structures be added through arbitrary handles so that the generator runs up to the explicit id."""
+    book = Book(sc)
+    touched = False
+    for op in sc["ops"]:
+        if op["k"] == "create_view" and sub.random() < 0.4:
+            x = sub.random()
+            if x < 0.75:
+                op["xid"] = book.next_id + sub.choice([0, 1, 1, 2, 2, 3, 5])
+            elif x < 0.9:
+                op["xid"] = sub.choice([1, 2, 3, max(1, book.next_id - 1), 15])
+            if x >= 0.9 or sub.random() < 0.3:
+                op["num"] = sub.choice([book.next_sofa, book.next_sofa + 1, book.next_sofa + 2, 1, 7])
+            touched = True
+        book.apply(op)
+    if touched and sub.random() < 0.6:
+        plain = [o for o in range(len(sc["objs"])) if book.objs[o]["type"] not in FAMILY]
+        for _ in range(sub.randint(1, 3) if plain else 0):
+            op = {"k": "add", "h": sub.randrange(len(book.handles)), "o": sub.choice(plain), "keep": sub.random() < 0.25}
+            sc["ops"].append(op)
+            book.apply(op)
+    return sc
+
+
 def generate(rng, tier):
     n, max_ops = {"quick": (1000, 14), "thorough": (5000, 24), "search": (4000, 16)}[tier]
+    # a separate stream for the explicit-id decoration: everything else of the scenarios is what it was without it
+    sub = random.Random("C08-explicit-ids-%r" % (rng.getstate()[1][:6],))
     for _ in range(n):
-        yield _scenario(rng, max_ops)
+        yield _explicit_ids(sub, _scenario(rng, max_ops))
 
 
 # ------------------------------------------------------------------------------------------------ implementation
@@ -408,7 +455,7 @@ def run_impl(cassis, sc):
             else:
                 h = handles[op["h"]]
                 if k == "create_view":
-                    handles.append(h.create_view(op["name"]))
+                    handles.append(h.create_view(op["name"], xmiID=op.get("xid"), sofaNum=op.get("num")))
                     leniency.append(probe(handles[-1]))
                     r = ["handle", len(handles) - 1]
                 elif k == "get_view":
@@ -491,14 +538,42 @@ def _check_snapshot(book, snap, where):
         return f"structure_count: {where}: structures seen {[o for o, _ in snap['objs']]}, expected {[o for o, _ in full['objs']]}"
     sofa_ids = [x[1] for x in snap["per"][0]["sofas"]]
     sofa_nums = [x[2] for x in snap["per"][0]["sofas"]]
-    if len(set(sofa_ids)) != len(sofa_ids) or len(set(sofa_nums)) != len(sofa_nums):
+    if full["fresh"] and (len(set(sofa_ids)) != len(sofa_ids) or len(set(sofa_nums)) != len(sofa_nums)):
         return f"sofa_ids_not_distinct: {where}: {sofa_ids} {sofa_nums}"
+    return None
+
+
+def _id_space(sc, obs):
+    """'All views share one id space', read off the observations alone: an id the CAS gives to a structure in some
+    step (the structure's xmiID changed, or the CAS created the structure) is the id of no sofa — generated or passed
+    to create_view — and of no other structure held by the index of any view."""
+    for i, op in enumerate(sc["ops"]):
+        before, after = obs["snaps"][i], obs["snaps"][i + 1]
+        old = dict((o, st["xid"]) for o, st in before["objs"])
+        now = dict((o, st["xid"]) for o, st in after["objs"])
+        indexed = set()
+        for got in after["per"]:
+            indexed.update(got["sel"])
+        for o, xid in now.items():
+            if xid is None or old.get(o) == xid:
+                continue
+            where = f"op {i} {json.dumps(op)}"
+            for name, sid in [(x[0], x[1]) for x in after["per"][0]["sofas"]]:
+                if sid == xid:
+                    return (f"id_shared_with_sofa: {where}: structure {o} was given id {xid}, which is the id of the "
+                            f"sofa of view {name!r}")
+            for o2 in sorted(indexed):
+                if o2 != o and now.get(o2) == xid:
+                    return f"id_shared_with_structure: {where}: structure {o} was given id {xid}, the id of indexed structure {o2}"
     return None
 
 
 def oracle(cassis, sc, obs):
     book = Book(sc)
     msg = _check_snapshot(book, obs["snaps"][0], "after construction")
+    if msg:
+        return msg
+    msg = _id_space(sc, obs)
     if msg:
         return msg
     for i, (op, got) in enumerate(zip(sc["ops"], obs["results"])):
@@ -510,6 +585,9 @@ def oracle(cassis, sc, obs):
             return f"result_{op['k']}: {where}: expected {want}, got {got}"
         msg = _check_snapshot(book, obs["snaps"][i + 1], where)
         if msg:
+            if any(o.get("xid") is not None or o.get("num") is not None for o in sc["ops"][:i + 1]):
+                msg += (" [an explicit xmiID / sofaNum was passed to create_view before: both shared generators must "
+                        "from then on stay above it]")
             return msg
         # an id generated in this step is one no sofa and no structure held before (one generator for all handles)
         if book.next_id == generated_before + 1 and generated_before in held and not (op["k"] == "add" and op["keep"]):
@@ -577,7 +655,7 @@ def _gop(op):
         return f"(OCovered {gn(op['o'])})"
     h = gnat(op["h"])
     if k == "create_view":
-        return f"(OCreateView {h} {gstr(op['name'])})"
+        return f"(OCreateView {h} {gstr(op['name'])} {gopt(op.get('xid'), gz)} {gopt(op.get('num'), gz)})"
     if k == "get_view":
         return f"(OGetView {h} {gstr(op['name'])})"
     if k == "add":
@@ -698,6 +776,31 @@ def _shrink_candidates(sc):
         yield c
 
 
+def _book_after(sc):
+    book = Book(sc)
+    for op in sc["ops"]:
+        book.apply(op)
+    return book
+
+
+def _passed_explicit(sc):
+    """an explicit sofa id k above the generator's next value n, followed by at least k - n + 1 generated ids: had the
+    generator not been moved past k it would have handed k out again"""
+    book = Book(sc)
+    marks = []
+    for op in sc["ops"]:
+        if op["k"] == "create_view" and op.get("xid") is not None and op["xid"] >= book.next_id and op["name"] not in book.views:
+            marks.append([op["xid"] - book.next_id + 1, 0])
+            book.apply(op)
+            continue
+        before, known = book.next_id, len(book.known_ids)
+        book.apply(op)
+        if book.next_id == before + 1 and before in book.known_ids and len(book.known_ids) == known + 1:
+            for m in marks:
+                m[1] += 1
+    return any(n >= gap for gap, n in marks)
+
+
 def signature(sc, msg):
     return {"what": msg.split(":")[0] if msg else ""}
 
@@ -718,6 +821,10 @@ def distribution(scenarios, observations):
             "operations": sum(len(s["ops"]) for s in scenarios), "by_kind": kinds,
             "max_views": max(nviews or [0]), "max_handles": max(nhandles or [0]),
             "cases_with_3plus_handles": sum(1 for n in nhandles if n >= 3), "operations_raising": errs,
+            "create_view_explicit_xmiID": sum(1 for s in scenarios for op in s["ops"] if op.get("xid") is not None),
+            "create_view_explicit_sofaNum": sum(1 for s in scenarios for op in s["ops"] if op.get("num") is not None),
+            "cases_generator_passed_explicit_id": sum(1 for s in scenarios if _passed_explicit(s)),
+            "cases_with_stale_explicit_number": sum(1 for s in scenarios if not _book_after(s).fresh),
             "foreign_adds": sum(1 for s in scenarios for op in s["ops"] if op["k"] == "add" and op["o"] < len(s["objs"])
                                 and s["objs"][op["o"]]["t"].startswith("f_"))}
 
@@ -728,7 +835,8 @@ MANIFEST = {
                   "as (view name, lenient): for all histories of create_view/get_view/add/remove/sofa setters/"
                   "document_language/get_covered_text and all handles — handles on one view are interchangeable, every "
                   "handle inherits the leniency, one sofa per view, sofa fields read back as last written through any handle, "
-                  "operations on one view never change another, one id space, the document annotation is created once, "
+                  "operations on one view never change another, one id space (an id given to create_view(name, xmiID=k) included: "
+                  "the shared generator is moved past it and never hands it out), the document annotation is created once, "
                   "covered text is the Python slice of the text of the view of the last add, a strict handle refuses "
                   "unknown type names; the model is tied to /repo on every run by evaluating it inside Coq on the histories "
                   "the implementation was run on, with the state observed through every live handle after every step.",
